@@ -196,6 +196,18 @@ func (qt *quotaTopology) checkParentQuotaInfo(quotaName, parentName string) erro
 		if !parentInfo.IsParent {
 			return fmt.Errorf("%v has parentName %v but the parentQuotaInfo's IsParent is false", quotaName, parentName)
 		}
+		// the parent must not be the quota itself or one of its descendants, otherwise the parent links form a cycle
+		curName := parentName
+		for steps := 0; curName != extension.RootQuotaName && steps <= len(qt.quotaInfoMap); steps++ {
+			if curName == quotaName {
+				return fmt.Errorf("%v has parentName %v which is the quota itself or one of its descendants", quotaName, parentName)
+			}
+			curInfo, exist := qt.quotaInfoMap[curName]
+			if !exist {
+				break
+			}
+			curName = curInfo.ParentName
+		}
 	}
 	return nil
 }
